@@ -15,9 +15,10 @@ import (
 // statement and an active call chain that are known by construction.
 
 type C14Marker struct {
-	File string `json:"file"`
-	Line int    `json:"line"`
-	Fn   string `json:"fn"`
+	File   string `json:"file"`
+	Line   int    `json:"line"`
+	Fn     string `json:"fn"`
+	Inline bool   `json:"inline,omitempty"` // the marker call sits in a function literal that is written and called on this very line
 	Dead bool   `json:"dead,omitempty"` // in code that can never execute
 }
 
@@ -88,7 +89,17 @@ func (b *c14b) markerStmt(file, fn, dvar string, indent int, dead bool) {
 	nextLine := len(*b.files[file]) + 1
 	id := b.marker(file, fn, nextLine, dead)
 	call := "mk.mark(" + itoa(id) + ", " + dvar + ")"
-	switch b.r.Intn(14) {
+	switch b.r.Intn(16) {
+	case 14, 15:
+		// the same helper literal text at every use: identical code, different places
+		m := b.meta.Markers[id]
+		m.Inline = true
+		b.meta.Markers[id] = m
+		if b.r.Chance(1, 2) {
+			b.emit(file, fn, b.v()+" := func(k, d) { return mk.mark(k, d) }("+itoa(id)+", "+dvar+")", indent)
+		} else {
+			b.emit(file, fn, b.v()+" := func(k, d) { x := [k, d]; return mk.mark(x[0], x[1]) + 1 }("+itoa(id)+", "+dvar+")", indent)
+		}
 	case 7:
 		x := b.v()
 		b.emit(file, fn, x+" := 0", indent)
